@@ -5,7 +5,7 @@ p=$1; prop=$2; tier=${3:-quick}
 wt=$(mktemp -d /tmp/seedwt-XXXXXX)
 git -C /repo worktree add --detach $wt HEAD >/dev/null 2>&1 || { echo "cannot create worktree"; exit 2; }
 git -C $wt apply --3way $p >/dev/null 2>&1 || git -C $wt apply $p || { echo "patch does not apply"; git -C /repo worktree remove --force $wt; exit 2; }
-cd /verif
+cd "$(dirname "$0")/.."
 SLIM_REPO=$wt VERIF_SEED=${VERIF_SEED:-1} ./check $prop $tier; rc=$?
 git -C /repo worktree remove --force $wt
 echo "seedwt $p $prop $tier rc=$rc"
